@@ -258,3 +258,39 @@ pub fn run_sequential(case: &Arc<TCase>) -> RunReport {
         _ => panic!("harness: problem/template family mismatch in {case:?}"),
     }
 }
+
+/// Runs the case with `problems::evaluate::Parallel` inside a shuttle execution.
+pub fn run_parallel(case: &Arc<TCase>, spec: crate::par::SchedSpec) -> (RunReport, u64, u64, u64) {
+    let c = case.clone();
+    let pr = crate::par::run_in_shuttle(spec, move || match (&c.problem, c.kind.family()) {
+        (ProblemSpec::Real(spec), Family::Real) => run_generic(&c, &RealP::new(spec.clone()), build_real::<RealP>, true),
+        (ProblemSpec::Bin(spec), Family::Bin) => run_generic(&c, &BinP::new(spec.clone()), build_bin::<BinP>, true),
+        (ProblemSpec::Tsp(spec), Family::Perm | Family::Tsp) => run_generic(&c, &TspP::new(spec.clone()), build_perm::<TspP>, true),
+        _ => panic!("harness: problem/template family mismatch"),
+    });
+    match pr.result {
+        Ok(mut rep) => {
+            rep.schedule_hash = pr.schedule_hash;
+            (rep, pr.schedule_hash, pr.scheduler_steps, pr.context_switches)
+        }
+        Err(p) => {
+            // a panic that escaped run_generic's own guard: inside the simulated pool
+            let rep = RunReport {
+                result: RunResult::Panic(p),
+                violations: Vec::new(),
+                counters: Counters::new(),
+                steps: 0,
+                fingerprint: 0,
+                digest: Digest::default(),
+                calls: 0,
+                max_inflight: 0,
+                tests: 0,
+                trues: 0,
+                schedule_hash: pr.schedule_hash,
+                passes_main: 0,
+                words_drawn: 0,
+            };
+            (rep, pr.schedule_hash, pr.scheduler_steps, pr.context_switches)
+        }
+    }
+}
